@@ -1,0 +1,25 @@
+//go:build verif
+
+// Machine-checked contracts (comment-only; compiled only under the build tag "verif").
+package bluegreenstyle
+
+//@ track (Interface).CalculateBatchContext as calc
+//@ track (Interface).UpgradeBatch as upgrade
+//@ track (Interface).Finalize as finalize
+
+//@ func (*realBatchControlPlane).EnsureBatchPodsReadyAndLabeled
+//@ props C11
+//@ requires rc != nil
+//@ ensures ready_checked: result == nil ==> (#isReady == 0 && #calc == 0) || (#isReady == 1 && #isReady.ret0 == nil && #calc == 1 && #isReady.arg0 == #calc.ret0)
+//@ ensures no_upgrade_here: #upgrade == 0
+
+//@ func (*realBatchControlPlane).Finalize
+//@ props C11
+//@ requires rc != nil
+//@ ensures released: result == nil ==> (#finalize == 1 && #finalize.ret0 == nil) || #finalize == 0
+
+//@ func (*realBatchControlPlane).UpgradeBatch
+//@ props C01 C11
+//@ requires rc != nil
+//@ ensures one_write: #upgrade <= 1
+//@ ensures on_context: #upgrade == 1 ==> #calc == 1 && #calc.ret1 == nil && #upgrade.arg1 == #calc.ret0
